@@ -27,6 +27,7 @@ class Monitor(object):
         self.reset()
         self.limit_events = None
         self.limit_calls = None
+        self.limit_str = None
 
     def reset(self):
         self.cb = 0              # walker callback invocations
@@ -153,7 +154,12 @@ class MonDict(dict):
 
             def counted(formula, *a, **kw):
                 MON.on_callback(walker, formula)
-                return f(formula, *a, **kw)
+                r = f(formula, *a, **kw)
+                # a callback result that is a huge string = tree-style text built bottom-up
+                if type(r) is str and MON.limit_str is not None and len(r) > MON.limit_str:
+                    raise BudgetExceeded("a %s callback returned a string of %d characters"
+                                         % (type(walker).__name__, len(r)))
+                return r
             w = (f, counted)
             self._wrapped[k] = w
         return w[1]
